@@ -382,6 +382,9 @@ func verifyContract(prog *Program, prop string, fn *ssa.Function, c *FuncContrac
 			f(e)
 		}()
 		obls = append(obls, e.obls...)
+		if os.Getenv("GOVC_APPROX") != "" {
+			fmt.Fprintf(os.Stderr, "approx %s: %v\n", e.fnName, e.approx)
+		}
 		reps = append(reps, FuncReport{Name: e.fnName, File: relRepo(prog.fset.Position(fn.Pos()).Filename), Mode: e.mode,
 			SSAInstrs: countInstrs(fn), Obls: len(e.obls), Approx: e.approx, Notes: c.Notes})
 	}
@@ -655,8 +658,13 @@ func (e *Enc) frameObligations(fr *Frame, c *FuncContract, rst *State, guard T) 
 				bx = n.(*CIndex).X
 			}
 			base := e.eval(sc, bx, nil)
-			sl := base.Typ.Underlying().(*types.Slice)
-			allow = append(allow, allowed{"E|" + typeKey(sl.Elem()) + "|", base.L[0]})
+			if sl, ok := base.Typ.Underlying().(*types.Slice); ok {
+				allow = append(allow, allowed{"E|" + typeKey(sl.Elem()) + "|", base.L[0]})
+			} else if r, et, ok := e.arrayFieldRow(sc, bx); ok {
+				allow = append(allow, allowed{"E|" + typeKey(et) + "|", r})
+			} else {
+				panic(unsupported("modifies target: " + m.E.String()))
+			}
 		case *CIdent:
 			base := e.eval(sc, n, nil)
 			space, root, prefix, _, glob := e.ptrParts(base)
@@ -697,6 +705,10 @@ func (e *Enc) frameObligations(fr *Frame, c *FuncContract, rst *State, guard T) 
 		e.qCtr++
 		r := T{IntS, fmt.Sprintf("fr!%d", e.qCtr)}
 		cond := And(T{BoolS, app("<", "0", r.E)}, T{BoolS, app("<", r.E, top0.E)})
+		if strings.HasPrefix(k, "E|") {
+			// rows that model array-typed fields of pre-existing objects have negative references
+			cond = Or(cond, And(T{BoolS, app("<", r.E, "0")}, T{BoolS, app("<", app("-", app("*", top0.E, "1024")), r.E)}))
+		}
 		for _, a := range allow {
 			if strings.HasPrefix(k, a.prefix) {
 				cond = And(cond, Not(Eq(r, a.ref)))
